@@ -59,6 +59,24 @@ def call_hazards(prog, module_names=None):
                             f"on NumPy {numpy.__version__} `copy=False` means *never copy* and raises ValueError whenever "
                             f"a copy is needed -- for every Python scalar, list or array of another dtype "
                             f"(np.asarray is the copy-if-needed spelling)"))
+            # operations that rearrange / overwrite an array argument in place although they read like queries
+            if d is not None and d.startswith("numpy.") and any(
+                    k.arg == "overwrite_input" and not (isinstance(k.value, ast.Constant) and not k.value.value)
+                    for k in n.keywords):
+                out.append((m.path, n.lineno, f"{d}(..., overwrite_input=True)",
+                            f"`overwrite_input=True` lets {d} partition / compact its argument in place: an array that is kept "
+                            f"(a ring buffer indexed by arrival position) is permuted by what looks like a read"))
+            if d is not None and d.startswith("numpy.") and any(
+                    k.arg == "out" and isinstance(k.value, ast.Attribute) and isinstance(k.value.value, ast.Name) and
+                    k.value.value.id == "self" for k in n.keywords):
+                out.append((m.path, n.lineno, f"{d}(..., out=self.{next(k.value.attr for k in n.keywords if k.arg == 'out')})",
+                            f"`out=` makes {d} write its result over an array the object keeps"))
+            if isinstance(n.func, ast.Attribute) and n.func.attr in ("sort", "partition", "fill", "put", "resize", "itemset") and \
+                    isinstance(n.func.value, ast.Attribute) and isinstance(n.func.value.value, ast.Name) and \
+                    n.func.value.value.id == "self":
+                out.append((m.path, n.lineno, f"self.{n.func.value.attr}.{n.func.attr}(...)",
+                            f"ndarray.{n.func.attr} changes the kept array in place (slots no longer correspond to arrival "
+                            f"positions)"))
     return out
 
 
